@@ -85,10 +85,16 @@ pub fn lex_lit(v: &mut Vec<Lex>, l: &Lit) {
         Lit::Bool(b) => w(v, if *b { "TRUE" } else { "FALSE" }),
         Lit::Int(i) => w(v, &i.to_string()),
         Lit::Str(s) => v.push(Lex::CStr(s.clone())),
-        Lit::Hex(h) => v.push(Lex::QStr(
-            h.iter().map(|b| format!("{:02X}", b)).collect::<String>(),
-            'H',
-        )),
+        Lit::Hex(h) => {
+            let mut digits = h.iter().map(|b| format!("{:02X}", b)).collect::<String>();
+            // an odd number of digits: half of the literals whose first octet is below 0x10 are written without the
+            // leading zero digit. This pins asn1rs's current reading ('A71'H = 0A 71); X.680 arguably reads a missing digit
+            // as a *trailing* zero (A7 10) - not asserted here, see DESIGN.md 11.7
+            if h.len() >= 2 && h[0] < 0x10 && h.iter().map(|b| *b as u32).sum::<u32>() % 2 == 0 {
+                digits.remove(0);
+            }
+            v.push(Lex::QStr(digits, 'H'))
+        }
         Lit::Bin(b) => v.push(Lex::QStr(
             b.iter().map(|b| if *b { '1' } else { '0' }).collect::<String>(),
             'B',
